@@ -37,6 +37,9 @@ func runC09(c *engine.Ctx) {
 	// ---- R12 a registration that fails after its port was acquired gives the port back (shared with C10.R2); deferred
 	// rollbacks are judged with the value their captured error variable holds at the exit ----
 	checkRunRollbacks(c, "R12")
+	// ---- R13 a registration never completes after its session or its own CloseProxy was handled (shared with C16.R28): the port
+	// would stay bound and marked used for a dead owner ----
+	checkSyncStateHandlers(c, "R13")
 }
 
 // checkGroupPortLife (R11): a tcp group gives its port back when its last member leaves (CloseListener releases under
